@@ -289,4 +289,67 @@ pub mod derive_support {
             }
         }
     }
+
+    impl<Value: Clone + Lerp> SubTimeline<Value> {
+        /// Second stub for `SubTimeline::from_keyframes` (macro-equivalence harnesses, C15/C16): captures
+        /// EVERYTHING it was given — one frame per keyframe (position, the extracted value or the default,
+        /// the keyframe's easing or the default), `map[i] = 1` iff keyframe i defines the property, and a
+        /// final frame at position 2.0 holding the default value and default easing.
+        pub fn verif_from_keyframes_capture<'a, Data: 'a + Clone + std::fmt::Debug, ValueFn>(
+            keyframes: impl IntoIterator<Item = &'a Keyframe<Data>>,
+            default_value: Value,
+            get_value: ValueFn,
+            default_easing: Easing,
+        ) -> Self
+        where
+            ValueFn: Fn(&Data) -> Option<Value>,
+        {
+            let mut frames = Vec::new();
+            let mut map = Vec::new();
+            for kf in keyframes.into_iter() {
+                let (v, defined) = match get_value(&kf.data) {
+                    Some(v) => (v, 1usize),
+                    None => (default_value.clone(), 0usize),
+                };
+                let e = match &kf.easing {
+                    Some(e) => e.clone(),
+                    None => default_easing.clone(),
+                };
+                frames.push(SplitKeyframe::new(kf.normalized_time, v, e));
+                map.push(defined);
+            }
+            frames.push(SplitKeyframe::new(2.0, default_value, default_easing));
+            SubTimeline { frames, frame_index_map: map, start_frame_override: None }
+        }
+    }
+
+    impl<Value: Clone + PartialEq> SubTimeline<Value> {
+        /// Structural equality of two captured sub-timelines (positions, values, easing variants,
+        /// defined-flags, substituted start value).
+        pub fn verif_same_capture(&self, other: &Self) -> bool {
+            if self.frames.len() != other.frames.len() || self.frame_index_map.len() != other.frame_index_map.len() {
+                return false;
+            }
+            let mut i = 0;
+            while i < self.frames.len() {
+                let (a, b) = (&self.frames[i], &other.frames[i]);
+                if !(a.normalized_time == b.normalized_time && a.value == b.value && std::mem::discriminant(&a.easing) == std::mem::discriminant(&b.easing)) {
+                    return false;
+                }
+                i += 1;
+            }
+            let mut j = 0;
+            while j < self.frame_index_map.len() {
+                if self.frame_index_map[j] != other.frame_index_map[j] {
+                    return false;
+                }
+                j += 1;
+            }
+            match (&self.start_frame_override, &other.start_frame_override) {
+                (None, None) => true,
+                (Some(a), Some(b)) => a.value == b.value,
+                _ => false,
+            }
+        }
+    }
 }
